@@ -3,6 +3,7 @@ import Gv.Model.Cli
 import Gv.Gen.Tables
 import Gv.Spec.Rand
 import Gv.Oracle.CliDefaults
+import Gv.Model.Fmt.Phylip
 /-!
 Oracle handlers of property C11.
 
@@ -134,6 +135,74 @@ def seededFlags (rows : Rows) (argv : List String) : Option String :=
     pure ("rc=0 out=" ++ fasta (runCmd (addGaps (fracOf p n) (fracOf lp L) L rows) s 0))
   | _ => none
 
+/-- `phylip.WriteAlignment(al, false, false, false)`, newline as `|` -/
+def phylip (r : Rows) : String :=
+  (stringOfBytes (Fmt.Phylip.write false false false (r.map fun x => (bytesOfString x.1, x.2)))).replace "\n" "|"
+
+/-- `parseCountFile` of cmd/rarefy.go on the wire form of a file (`|` newline, `~` tab): a map, a later line
+replaces an earlier one of the same name; `none` = error (a line without exactly two columns, a count that is
+not an integer) -/
+def parseCounts (content : String) : Option (List (String × Int)) := do
+  let ls := content.splitOn "|"
+  let ls := if ls.getLast? == some "" then ls.dropLast else ls
+  let kv ← ls.mapM fun l =>
+    match l.splitOn "~" with
+    | [k, v] => (parseInt? v).map fun x => (k, x)
+    | _ => none
+  pure (kv.foldl (fun acc e => acc.filter (fun a => a.1 != e.1) ++ [e]) [])
+
+def filesOf (files : String) : List (String × String) :=
+  if files == "_" then [] else (files.splitOn ";;").filterMap fun f =>
+    match f.splitOn "=" with
+    | n :: rest => some (n, "=".intercalate rest)
+    | _ => none
+
+/-- seeded commands that read or write further files (`cli_libf <stdin> <files> <argv…>`) -/
+def seededFiles (rows : Rows) (files : List (String × String)) (argv : List String) : Option String :=
+  let L : Nat := Spec.width rows
+  let bad := "rc=1 out= files="
+  match argv with
+  | "sample" :: "rarefy" :: fl => do
+    -- cmd/rarefy.go: the counts are read first; per alignment `replicates` calls of `Rarefy(nb-seq, counts)` on the
+    -- one stream, each written at once; more than one replicate switches the output to Phylip
+    let o ← parseOpts [("-n", "--nb-seq"), ("-c", "--counts"), ("-r", "--replicates")] [] ["--seed", "--nb-seq", "--counts", "--replicates"] fl
+    let s ← seedOf o
+    let nb ← parseInt? (← optOr o "rarefyCmd" "nb-seq")
+    let m ← parseInt? (← optOr o "rarefyCmd" "replicates")
+    let cf ← files.find? (·.1 == (← optOr o "rarefyCmd" "counts"))
+    match parseCounts cf.2 with
+    | none => pure bad
+    | some cs =>
+      if m ≤ 0 then pure "rc=0 out= files=" else
+      let sorted := cs.mergeSort fun a b => decide (a.1 ≤ b.1)
+      if sorted.any (fun c => c.2 ≤ 0) then pure bad else
+      -- a negative `nb-seq` passes the test `nb >= total` and draws nothing: as 0, except that no count at all is accepted
+      let empties := List.replicate m.toNat ([] : Rows)
+      if nb < 0 && sorted.isEmpty then pure ("rc=0 out=" ++ String.join (empties.map (if m > 1 then phylip else fasta)) ++ " files=") else
+      match rarefy nb.toNat (sorted.map fun c => (c.1, c.2.toNat)) rows with
+      | none => pure bad
+      | some p =>
+        let outs := runCmd (replM m.toNat p) s 0
+        pure ("rc=0 out=" ++ String.join (outs.map (if m > 1 then phylip else fasta)) ++ " files=")
+  | "build" :: "seqboot" :: fl => do
+    -- cmd/bootstrap.go (no partition, no tar / gz): replicate `i` = `BuildBootstrap(frac)` then, with `-S`,
+    -- `ShuffleSequences` of the replicate, written to `<prefix><i>.fa`; nothing on stdout
+    let o ← parseOpts [("-n", "--nboot"), ("-f", "--frac"), ("-o", "--out-prefix"), ("-S", "--shuf-order")] ["--shuf-order"]
+      ["--seed", "--nboot", "--frac", "--out-prefix", "--shuf-order"] fl
+    let s ← seedOf o
+    let nboot ← parseInt? (← optOr o "seqbootCmd" "nboot")
+    let f ← parseSDec (← optOr o "seqbootCmd" "frac")
+    let prefix_ ← optOr o "seqbootCmd" "out-prefix"
+    let shuf := (← optOr o "seqbootCmd" "shuf-order") == "true"
+    if prefix_ == "none" then pure bad else
+    let f := if f ≤ 0 || f > 1 then 1.0 else f
+    let one : RProg Rows := RProg.bind (bootstrap (fracOf f L) L rows) fun b => if shuf then shuffleSequences b else .pure b
+    let outs := runCmd (replM nboot.toNat one) s 0
+    let named := (List.range outs.length).zip outs |>.map fun (i, b) => (prefix_ ++ toString i ++ ".fa", fasta b)
+    let named := named.mergeSort fun a b => decide (a.1 ≤ b.1)
+    pure ("rc=0 out= files=" ++ ";;".intercalate (named.map fun x => x.1 ++ "=" ++ x.2))
+  | _ => none
+
 def sameVerdict (impl what : String) : Ans :=
   ⟨"same", if impl.startsWith "same" then "pass" else "fail:" ++ what⟩
 
@@ -173,6 +242,10 @@ def handle : Handler := fun op args impl =>
     match out with
     | some m => some ⟨m, verdictOf (impl == m) "seeded-command-bytes"⟩
     | none => some ⟨"bad-args", "na"⟩
+  | "cli_libf", stdin :: files :: argv =>
+    -- only the seeded commands; any other `cli_libf` case is left to the handlers of the other properties
+    (seededFiles (parseFasta (stdin.splitOn "|")) (filesOf files) argv).map fun m =>
+      ⟨m, verdictOf (impl == m) "seeded-command-bytes"⟩
   | _, _ => none
 
 end Gv.Oracle.DetOps
